@@ -15,6 +15,10 @@ W=${SEED_ROOT:-/tmp/seed}/$ID
 S=$W/seeded/$V
 OV=${OUT_VARIANT:-$V}
 OUT=/verif/seeded/$ID-$OV
+# the sub-agent's scratch worktree is gone (removed when done): re-evaluate from the kept copy
+if [ ! -f "$S/patch.diff" ] && [ -f "$OUT/patch.diff" ]; then
+  S=$(mktemp -d); cp "$OUT/patch.diff" "$OUT/demo.rs" "$S/"; cp "$OUT/agent_meta.json" "$S/meta.json" 2>/dev/null
+fi
 [ -f "$S/patch.diff" ] || { echo "no $S/patch.diff"; exit 2; }
 mkdir -p "$OUT"
 export CARGO_NET_OFFLINE=true
@@ -31,7 +35,7 @@ CLEAN_RC=$(run_demo clean)
 if ! git apply "$S/patch.diff"; then echo "patch does not apply"; echo '{"confirmed":false,"why":"patch does not apply to the current head"}' > "$OUT/results.json"; rm -f tests/seeded_demo_eval.rs; exit 3; fi
 if ! cargo build --offline >"$OUT/build.log" 2>&1; then echo "does not compile"; git checkout -q -- src; rm -f tests/seeded_demo_eval.rs; echo '{"confirmed":false,"why":"does not compile"}' > "$OUT/results.json"; exit 3; fi
 BUG_RC=$(run_demo bug)
-BASE=$(/tmp/seed/run_baseline.sh "$C" 2>&1 | grep "baseline tests passing" | tail -1)
+BASE=$(/verif/tools/run_baseline.sh "$C" 2>&1 | grep "baseline tests passing" | tail -1)
 git checkout -q -- src
 rm -f tests/seeded_demo_eval.rs
 echo "demo clean rc=$CLEAN_RC, with change rc=$BUG_RC, $BASE"
